@@ -24,7 +24,8 @@ print('RESULT ' + json.dumps(out))
 
 
 def snapshot(V):
-    out = {'bins': np.asarray(V.bins, float).copy(), 'count': np.asarray(V.bin_count).copy(), 'exp': np.asarray(V.experimental, float).copy()}
+    out = {'bins': np.asarray(V.bins, float).copy(), 'count': np.asarray(V.bin_count).copy(), 'exp': np.asarray(V.experimental, float).copy(),
+           'values': np.asarray(V.values, float).copy(), 'coordinates': np.asarray(V.coordinates, float).copy()}
     try:
         out['par'] = np.array([np.nan if p is None else p for p in V.parameters], float)
     except Exception:
@@ -111,7 +112,7 @@ def run(ctx, replay=None):
             next_loc = 4
             returned = []
             for _k in range(L):
-                o = rng.choice(['write_values', 'write_coords', 'get_bins', 'write_bins', 'clone', 'mutate_clone', 'pickle', 'observe', 'observe'])
+                o = rng.choice(['write_values', 'write_coords', 'get_bins', 'write_bins', 'clone', 'mutate_clone', 'pickle', 'read_scores', 'observe', 'observe'])
                 try:
                     if o == 'write_values' and isinstance(v_in, np.ndarray):
                         v_in[...] = 0.0 if rng.random() < 0.5 else v_in * 3 + 1
@@ -146,6 +147,22 @@ def run(ctx, replay=None):
                             ctx.problem('oracle', 'a pickle round trip does not reproduce the observable results (%s)' % same_snap(snap, snapshot(P)), case, None, {'what': 'pickle-differs'})
                         ops.append([4])
                         next_loc += 2
+                    elif o == 'read_scores':
+                        # reads of derived quantities are reads: they must not change what the instance holds
+                        for attr in rng.sample(['aic', 'bic', 'rmse', 'mae', 'nrmse', 'r', 'residuals', 'describe', 'data', 'model_deviations'], 4):
+                            try:
+                                val = getattr(V, attr)
+                                if callable(val):
+                                    val()
+                            except Exception:
+                                ctx.count('score_read_rejected', attr)
+                        ops.append([5])
+                        diff = same_snap(snap, snapshot(V))
+                        hist.append(o)
+                        if diff:
+                            ctx.problem('oracle', 'after the history %s (reads of derived scores) the %s of the instance changed' % (hist, diff), dict(case, history=hist), None, {'what': 'read-mutates', 'changed': diff})
+                            break
+                        continue
                     elif o == 'observe':
                         # force re-computation from the arrays the instance holds
                         V.preprocessing(force=True)
